@@ -159,8 +159,27 @@ def import_(src, name, prop):
     return ok, res
 
 
+def report():
+    """Markdown table of all seeded changes (for DESIGN.md section 9)."""
+    print("| id | what the change needs in order to manifest | quick check | first run |")
+    print("|---|---|---|---|")
+    for name in sorted(os.listdir(SEEDED)):
+        mp = os.path.join(SEEDED, name, "meta.json")
+        if not os.path.exists(mp):
+            continue
+        m = json.load(open(mp))
+        q = "; ".join("%s %s" % (p, v["verdict"].lower()) for p, v in m.get("quick_check", {}).items())
+        f = m.get("first_quick_check")
+        first = "; ".join("%s %s" % (p, v["verdict"].lower()) for p, v in f.items()) if f else "same"
+        needs = m.get("summary") or m["needs_to_manifest"].split("\n")[0][:160]
+        print("| %s | %s | %s | %s |" % (name, needs.replace("|", "/"), q, first))
+
+
 def main():
     cmd = sys.argv[1]
+    if cmd == "report":
+        report()
+        return
     if cmd == "import":
         import_(sys.argv[2], sys.argv[3], sys.argv[4].upper())
         return
